@@ -101,9 +101,11 @@ class Acc:
                 self.extra[k] = self.extra.get(k, 0) + v
             elif isinstance(v, list):
                 cur = self.extra.setdefault(k, [])
+                seen = set(map(repr, cur))
                 for item in v:
-                    if item not in cur and len(cur) < 400:
+                    if repr(item) not in seen and len(cur) < 5000:
                         cur.append(item)
+                        seen.add(repr(item))
             elif isinstance(v, dict):
                 cur = self.extra.setdefault(k, {})
                 for kk, vv in v.items():
